@@ -1,7 +1,7 @@
 #!/usr/bin/env python3
 """Seeded-change bookkeeping.
 
-  seeded.py ingest <pid> <n> <worktree>      copy OUT/<n>/ of a mutation worktree to /verif/seeded/<pid>-<n>/,
+  seeded.py ingest <pid> <n> <worktree> [<name-prefix>]     copy OUT/<n>/ of a mutation worktree to /verif/seeded/<pid>-<n>/,
                                               confirm it in that worktree (suite passes with the change, demo fails
                                               with it and passes without), write meta.json
   seeded.py run <name> [<pid> ...]            apply the patch to /repo, run bin/check <pid> quick for the given
@@ -23,14 +23,14 @@ def sh(cmd, cwd=None, timeout=3600):
     return r.returncode, r.stdout + r.stderr
 
 
-def ingest(pid, n, wt):
-    name = "%s-%s" % (pid, n)
+def ingest(pid, n, wt, prefix=None):
+    name = "%s-%s" % (prefix or pid, n)
     dst = os.path.join(SEEDED, name)
     os.makedirs(dst, exist_ok=True)
     src = os.path.join(wt, "OUT", str(n))
     for f in ("patch.diff", "demo.rs", "notes.md"):
         shutil.copy(os.path.join(src, f), os.path.join(dst, f))
-    demo = "seeded_demo_%s_%s" % (pid.lower(), n)
+    demo = "seeded_demo_%s_%s" % ((prefix or pid).lower(), n)
     os.makedirs(os.path.join(wt, "tests"), exist_ok=True)
     shutil.copy(os.path.join(dst, "demo.rs"), os.path.join(wt, "tests", demo + ".rs"))
     rc, out = sh("git checkout -- src && git status --short -- src", cwd=wt)
@@ -97,6 +97,6 @@ def run(name, pids):
 
 if __name__ == "__main__":
     if sys.argv[1] == "ingest":
-        ingest(sys.argv[2], sys.argv[3], sys.argv[4])
+        ingest(sys.argv[2], sys.argv[3], sys.argv[4], sys.argv[5] if len(sys.argv) > 5 else None)
     elif sys.argv[1] == "run":
         run(sys.argv[2], sys.argv[3:])
